@@ -428,6 +428,8 @@ def _check_ctor(repo, R, h: Handler, hp: HPath, f, line, tparams, ops):
     el = elem_of(core)
     inner = el if el is not None else core
     if not (is_op_call(inner) and inner.args and U(inner.args[0]) == f"{x}._data"):
+        if any(isinstance(n, ast.BinOp) for n in ast.walk(data)) and ops <= MOVE_OPS | PRESERVE_OPS | EWHOM_OPS | JOIN_OPS | COPY_OPS:
+            R("C06", "C06.R6", "bad", h, line, "payload arithmetic", f"payload term `{dtxt[:70]}` of a move/copy handler contains arithmetic", "any input: codes are altered by a move/copy")
         R("C05", "C05.R4", "bad" if any(isinstance(n, ast.BinOp) for n in ast.walk(data)) else "unknown", h, line, f"payload term for {sorted(ops)}",
           f"payload `{dtxt[:90]}` is not `op({x}._data, ...)`: the payload meets arithmetic or another call", "any input")
         return
